@@ -99,7 +99,10 @@ partial def loop (h : IO.FS.Stream) (d : DS) : IO Unit := do
     let m? : Option Mode := if mode == "lt" then some .lt else if mode == "et" then some .et else if mode == "os" then some .os else none
     match m? with
     | some m =>
-      if (exec == "def" || exec == "park") && (typ == "tcp" || typ == "unix" || typ == "udp") && rbs.toNat! > 0 && cap.toNat! > 0 && np.toNat! > 0 then
+      if exec == "real" && (typ == "tcp" || typ == "unix" || typ == "udp") && rbs.toNat! > 0 && cap.toNat! > 0 && np.toNat! > 0 then
+        -- supporting real-kernel tier: nothing to predict, the direct oracles judge
+        IO.println "R real ok"; loop h { d with dead := true }
+      else if (exec == "def" || exec == "park") && (typ == "tcp" || typ == "unix" || typ == "udp") && rbs.toNat! > 0 && cap.toNat! > 0 && np.toNat! > 0 then
         let g : Cfg := { mode := m, async := async == "1", rbs := rbs.toNat!, cap := cap.toNat!, udp := typ == "udp" }
         let s : St := if g.udp then init else { init with opens := [0] }
         say { g, s, exec } "ok"
